@@ -1,11 +1,44 @@
 /-
-  Sipsp.Proofs.ShiftNA — position independence (C11) of ParseNameAddrPVal.
+  Sipsp.Proofs.ShiftNA — position independence (property C11) of ParseNameAddrPVal (From / To / Contact / PAI values).
 
-  `shNa k pf` is the name-addr object `pf` moved by `k` bytes: the display name, URI, tag, parameter list and value
-  fields and the saved positions are moved, numbers / flags / type / state / panic flag are unchanged. Which things are
-  moved: URI, value and saved restart offset by automaton state (they are set in known states); the display name, the
-  tag, the parameter list, the four name / value positions of the parameter being parsed and the error offset use the
-  Go convention "zero value = not set" (a set one is never zero: at least one byte of the value precedes it).
+  Setting as in Sipsp.Proofs.Shift: the text `t` is parsed at its own start (buffer `t`, offset `o`) and after
+  `k = pre.size` arbitrary bytes (buffer `pre ++ t`, offset `k + o`), with `pre.size + t.size ≤ 65535`.
+
+  THE TRANSLATION. `shNa k pf` is the name-addr object `pf` moved by `k`:
+  * URI (`uriSet`), value (`vSet`) and the saved restart offset `soffs` (`sPos`) are moved in exactly the automaton
+    states in which they are set (the restart offset is a position in the states reached through a bare URI / display
+    name and is the constant 0 in the states reached through `<uri>;`);
+  * display name, tag, parameter list (`shO`, `shP`), the four name / value positions of the parameter being parsed
+    and the parameter-error offset (`shZ`) follow the Go convention "zero value = not set": 0 stays 0, anything else
+    is moved by `k`. This is unambiguous because a set one is never 0 (invariant `NaPos`: outside the initial state the
+    current position is ≥ 1, so a parameter can never start at buffer position 0 — the `Params.Offs == 0` sentinel of
+    the Go code is therefore harmless for texts that start at offset 0);
+  * numbers (q, expires), flags, type, state, parameter error and the panic flag are unchanged; `shNa k {} = {}`.
+  Inside the loop the restart offset lives in the local `s`: `shL` is the same translation with `s` in place of
+  `soffs`; `shDn` is the translation of an object returned by a finishing step.
+
+  PROVED (all inputs, all 33 states, no size bound other than the 16-bit limit):
+  * `naStepA_shift` … `naStepVE_shift`, `naStep_shift`: every group of the loop body commutes with the translation:
+    same kind of step, position / returned offset moved by `k`, same verdict, object translated. Finishing steps are
+    compared up to the local `s` (`stepN clrS`): the end-of-header code moves to the final state without touching `s`,
+    which the call then discards (`naExit` clears it), so no function of the final state alone can say whether that
+    dead value was a position. `naEOH_shift`: the end-of-header code, `setFromParamVal_shift`: storing a parameter.
+  * `na_posCont`: the invariant `NaPos` is kept by every continuing step (with `na_safeCont` of SafeNA).
+  * `naLoop_shift` (through the generic `runLoop_shiftN`) and the main theorem
+    `parseNameAddrPVal_shift : parseNameAddrPVal h (pre ++ t) (k + o) (shNa k pf) = shResNa k pf (parseNameAddrPVal h t o pf)`
+    for every legitimate object (`NaShiftEntry`: finished, or satisfying the loop invariants once the restart offset is
+    loaded; `NaShiftEntry_new`: a new object at any offset `o ≤ t.size` is one; `parseNameAddrPVal_shiftEntry`: so is
+    the object returned with MoreBytes, hence `parseNameAddrPVal_shift_resume` for the resumed call).
+    `shResNa` = offset moved by `k`, same verdict, object `shNa k`; only after an ERROR verdict the restart offset of
+    the result is the stale one of the object passed in (Go never wrote it), i.e. it is moved as in the entry object.
+  * corollaries: `parseNameAddrPVal_shift_wrote` (the plain `shRes k (shNa k)` form after OK / MoreValues / MoreBytes),
+    `parseNameAddrPVal_shift_fields` (any verdict: everything but `soffs`), `parseNameAddrPVal_shift_new`,
+    `parseNameAddrPVal_shift_reported` / `_bytes` (what a caller sees after a complete value: fields moved by `k`,
+    numbers and flags unchanged, same bytes denoted).
+  NOT proved / not true: the plain form `= shRes k (shNa k) (…)` is FALSE after error verdicts for any translation
+  that is a function of the returned object alone (witness among the tests below: `a <b<` → BadChar in state `uri` with
+  the never-written restart offset 0 in both runs, while the same state after `a <b` + MoreBytes carries a real saved
+  position); this concerns only that internal, stale field.
 -/
 import Sipsp.Proofs.Shift
 import Sipsp.Proofs.ShiftFLine
@@ -176,14 +209,6 @@ def clrS (pf : PFromBody) : PFromBody := { pf with s := 0 }
 theorem shNa_new (k : Nat) : shNa k {} = {} := rfl
 theorem shL_state (k : Nat) (pf : PFromBody) : (shL k pf).state = pf.state := rfl
 theorem shNa_state (k : Nat) (pf : PFromBody) : (shNa k pf).state = pf.state := rfl
-
-theorem PFromBody.ext' {a b : PFromBody} (h1 : a.name = b.name) (h2 : a.uri = b.uri) (h3 : a.tag = b.tag)
-    (h4 : a.star = b.star) (h5 : a.lr = b.lr) (h6 : a.hasExpires = b.hasExpires) (h7 : a.type = b.type)
-    (h8 : a.q = b.q) (h9 : a.expires = b.expires) (h10 : a.params = b.params) (h11 : a.v = b.v)
-    (h12 : a.paramErr = b.paramErr) (h13 : a.errOffs = b.errOffs) (h14 : a.state = b.state)
-    (h15 : a.soffs = b.soffs) (h16 : a.pstart = b.pstart) (h17 : a.pend = b.pend) (h18 : a.vstart = b.vstart)
-    (h19 : a.vend = b.vend) (h20 : a.s = b.s) (h21 : a.pnc = b.pnc) : a = b := by
-  cases a; cases b; simp only at *; simp only [*]
 
 theorem shP_extend (k : Nat) (f : PField) (e : Nat) (h : k + e ≤ 65535) (ho : f.offs ≤ e) (h0 : f.offs ≠ 0) :
     (shP k f).extend (k + e) = shP k (f.extend e) := by
@@ -717,6 +742,11 @@ theorem naLWS_pos (h : Nat) (b : Buf) (i : Nat) (pf : PFromBody) (hP : NaPos i p
   obtain ⟨rfl, hle⟩ := naLWS_cont_eq h b i pf hs
   exact hP.mono hle
 
+macro "st_hs" hst:ident hs:ident : tactic =>
+  `(tactic| simp only [$hst:ident, Bool.or_eq_true, beq_iff_eq, bne_iff_ne, reduceCtorEq, ne_eq, not_true_eq_false, not_false_eq_true,
+      Bool.or_false, Bool.or_true, Bool.false_or, Bool.true_or, or_false, or_true, false_or, true_or, decide_true,
+      decide_false, ↓reduceIte] at $hs:ident)
+
 theorem naStepA_pos (h : Nat) (b : Buf) (i : Nat) (c : UInt8) (pf : PFromBody)
     (hg : pf.state = .init ∨ pf.state = .name ∨ pf.state = .nameOrURI ∨ pf.state = .nameOrURIEnd)
     (hP : NaPos i pf) {i' : Nat} {st' : PFromBody} (hs : naStepA h b i c pf = .cont i' st') : NaPos i' st' := by
@@ -726,7 +756,7 @@ theorem naStepA_pos (h : Nat) (b : Buf) (i : Nat) (c : UInt8) (pf : PFromBody)
   rcases hg with hst | hst | hst | hst
   all_goals
     pos_hyps hst p1 p2 p3 p4
-    simp only [hst, beq_iff_eq, bne_iff_ne, reduceCtorEq, ne_eq, not_true_eq_false, not_false_eq_true, ↓reduceIte] at hs
+    st_hs hst hs
     repeat' (split at hs)
     all_goals first
       | exact naLWS_pos h b i _ hP' hs
@@ -745,7 +775,7 @@ theorem naStepQ_pos (h : Nat) (b : Buf) (i : Nat) (c : UInt8) (pf : PFromBody)
   rcases hg with hst | hst | hst
   all_goals
     pos_hyps hst p1 p2 p3 p4
-    simp only [hst, beq_iff_eq, bne_iff_ne, reduceCtorEq, ne_eq, not_true_eq_false, not_false_eq_true, ↓reduceIte] at hs
+    st_hs hst hs
     repeat' (split at hs)
     all_goals first
       | exact naLWS_pos h b i _ hP' hs
@@ -852,11 +882,6 @@ theorem naParam_pos (pf : PFromBody) (i : Nat) (hP : NaPos i pf) (hi : i < 65536
     · rename_i hc
       have hc' : pf.params.offs ≠ 0 := by simpa using hc
       first | exact hP'.mono (Nat.le_succ _) | pos_tac
-
-macro "st_hs" hst:ident hs:ident : tactic =>
-  `(tactic| simp only [$hst:ident, beq_iff_eq, bne_iff_ne, reduceCtorEq, ne_eq, not_true_eq_false, not_false_eq_true,
-      Bool.or_false, Bool.or_true, Bool.false_or, Bool.true_or, or_false, or_true, false_or, true_or, decide_true,
-      decide_false, ↓reduceIte] at $hs:ident)
 
 theorem naStepP_pos (h : Nat) (b : Buf) (i : Nat) (c : UInt8) (pf : PFromBody) (hb : b[i]? = some c)
     (hfit : b.size ≤ 65535)
@@ -1096,6 +1121,729 @@ theorem naStepStar_shift (h : Nat) (pre t : Buf) (i : Nat) (c : UInt8) (pf : PFr
   split
   · exact naLWS_shift h pre t i pf hfit hS hP
   · simp only [stepN, shStepD]; rw [shDn_ne _ _ _ (by decide)]
+
+
+macro "st_goal" hst:ident : tactic =>
+  `(tactic| simp only [$hst:ident, Bool.or_eq_true, beq_iff_eq, bne_iff_ne, reduceCtorEq, ne_eq, not_true_eq_false, not_false_eq_true,
+      Bool.or_false, Bool.or_true, Bool.false_or, Bool.true_or, or_false, or_true, false_or, true_or, decide_true,
+      decide_false, ↓reduceIte])
+
+/-- storing a parameter value inside a step: the argument is the moved argument -/
+theorem sfp_step (pre t : Buf) (Y' Y : PFromBody) (hY : Y' = shL pre.size Y) (hfit : pre.size + t.size ≤ 65535)
+    (hp : Y.pstart < Y.pend → Y.pstart ≠ 0) (hv : Y.vstart < Y.vend → Y.vstart ≠ 0)
+    (hb1 : Y.vstart ≤ t.size) (hb2 : Y.vend ≤ t.size) :
+    setFromParamVal (pre ++ t) Y' = shL pre.size (setFromParamVal t Y) := by
+  subst hY; exact setFromParamVal_shift pre t Y hfit hp hv hb1 hb2
+
+theorem naCommaAfterWS_shift (h : Nat) (pre t : Buf) (i e : Nat) (pf : PFromBody)
+    (heoh : resN clrS (naEOH h (pre ++ t) (shL pre.size pf) (pre.size + e) (pre.size + i) 1 .moreValues) =
+      resN clrS (shResD pre.size (shDn pre.size) (naEOH h t pf e i 1 .moreValues))) :
+    stepN clrS (naCommaAfterWS h (pre ++ t) (shL pre.size pf) (pre.size + i) (pre.size + e)) =
+      stepN clrS (shStepD pre.size (shL pre.size) (shDn pre.size) (naCommaAfterWS h t pf i e)) := by
+  unfold naCommaAfterWS
+  split
+  · exact done_of_res _ _ _ heoh
+  · simp only [stepN, shStepD]; rw [shDn_ne _ _ _ (by decide)]
+
+/-! ### `case fbNewParam, fbNewPossibleParam, fbParamName, fbPossibleParamName` -/
+
+theorem naStepP_shift (h : Nat) (pre t : Buf) (i : Nat) (c : UInt8) (pf : PFromBody)
+    (hg : pf.state = .newParam ∨ pf.state = .newPossibleParam ∨ pf.state = .paramName ∨ pf.state = .possibleParamName)
+    (hb : t[i]? = some c) (hfit : pre.size + t.size ≤ 65535) (hS : NaSafe t i pf) (hP : NaPos i pf) :
+    stepN clrS (naStepP h (pre ++ t) (pre.size + i) c (shL pre.size pf)) =
+      stepN clrS (shStepD pre.size (shL pre.size) (shDn pre.size) (naStepP h t i c pf)) := by
+  have hlt := get?_lt hb
+  have hi1 : 1 ≤ i := hP.pos (by rcases hg with g | g | g | g <;> rw [g] <;> decide)
+  have hve := hS.vend
+  have hvs := hP.vsLe
+  unfold naStepP
+  by_cases hl : isLWSch c = true
+  · simp only [hl, ↓reduceIte]
+    rw [skipLWS_shift]
+    rcases hq : skipLWS t i 0 with ⟨n, crl, e⟩
+    have hX := naNameWS_safe t i i pf hS (Nat.le_refl _) hS.hi
+    have hXP := naNameWS_pos pf i hP hg
+    cases e <;> simp only <;> try rw [naNameWS_shift _ _ _ hi1]
+    case eoh => exact done_of_res _ _ _ (naEOH_shift_here h pre t _ i n crl .ok (by decide) hfit hX hXP)
+    case moreBytes => simp only [stepN, shStepD]; rw [saveS_shift]
+    case ok => rfl
+    all_goals
+      simp only [stepN, shStepD]
+      rw [shDn_ne _ _ _ (by decide)]
+  · simp only [hl, Bool.false_eq_true, ↓reduceIte]
+    by_cases c1 : (c == 44) = true
+    · simp only [c1, ↓reduceIte]
+      split
+      · exact naMoreValues_shift h pre t i pf hfit hS hP
+      · simp only [stepN, shStepD]; rw [Nat.add_assoc]
+    · simp only [c1, Bool.false_eq_true, ↓reduceIte, shL_state]
+      obtain ⟨p1, p2, p3, p4, p5, p6, p7⟩ := hP
+      by_cases c2 : (c == 61) = true
+      · simp only [c2, ↓reduceIte]
+        rcases hg with hst | hst | hst | hst
+        all_goals
+          st_goal hst
+          simp only [stepN, shStepD]
+          first
+            | rw [shDn_ne _ _ _ (by decide)]
+            | na_simp hst
+      · simp only [c2, Bool.false_eq_true, ↓reduceIte]
+        by_cases c3 : (c == 60 || c == 62) = true
+        · simp only [c3, ↓reduceIte, stepN, shStepD]
+          rw [shDn_ne _ _ _ (by decide)]
+        · simp only [c3, Bool.false_eq_true, ↓reduceIte]
+          by_cases c4 : (c == 59) = true
+          · simp only [c4, ↓reduceIte]
+            rcases hg with hst | hst | hst | hst
+            all_goals
+              pos_hyps hst p1 p2 p3 p4
+              st_goal hst
+              simp only [stepN, shStepD]
+              rw [Nat.add_assoc]
+            · congr 1
+              exact sfp_step pre t _ _ (by na_simp hst) hfit (fun _ => p3.2) (fun hh => p7 (by have hh' : pf.vstart < pf.vend := hh; omega))
+                 (by show pf.vstart ≤ t.size; omega) (by show pf.vend ≤ t.size; omega)
+            · congr 1
+              exact sfp_step pre t _ _ (by na_simp hst) hfit (fun _ => p3.2) (fun hh => p7 (by have hh' : pf.vstart < pf.vend := hh; omega))
+                 (by show pf.vstart ≤ t.size; omega) (by show pf.vend ≤ t.size; omega)
+          · simp only [c4, Bool.false_eq_true, ↓reduceIte, stepN, shStepD]
+            rw [Nat.add_assoc, naParamStart_shift _ _ _ hi1, naParamsOffs_shift _ _ _ hi1 (by omega)]
+
+/-! ### `case fbParamNameEnd, fbPossibleParamNameEnd` -/
+
+theorem naStepPE_shift (h : Nat) (pre t : Buf) (i : Nat) (c : UInt8) (pf : PFromBody)
+    (hg : pf.state = .paramNameEnd ∨ pf.state = .possibleParamNameEnd)
+    (hb : t[i]? = some c) (hfit : pre.size + t.size ≤ 65535) (hS : NaSafe t i pf) (hP : NaPos i pf) :
+    stepN clrS (naStepPE h (pre ++ t) (pre.size + i) c (shL pre.size pf)) =
+      stepN clrS (shStepD pre.size (shL pre.size) (shDn pre.size) (naStepPE h t i c pf)) := by
+  have hlt := get?_lt hb
+  have hi1 : 1 ≤ i := hP.pos (by rcases hg with g | g <;> rw [g] <;> decide)
+  have hve := hS.vend
+  have hpe := hS.pend
+  have hvs := hP.vsLe
+  have hE := hS.endP hg
+  have hlo := hP.lo
+  have hV := hP.hV
+  have hcore := hS.toNaCore
+  obtain ⟨p1, p2, p3, p4, p5, p6, p7⟩ := hP
+  unfold naStepPE
+  simp only [shL_state]
+  by_cases c2 : (c == 61) = true
+  · simp only [c2, ↓reduceIte]
+    rcases hg with hst | hst
+    all_goals
+      st_goal hst
+      simp only [stepN, shStepD]
+      na_simp hst
+  · simp only [c2, Bool.false_eq_true, ↓reduceIte]
+    by_cases c4 : (c == 59) = true
+    · simp only [c4, ↓reduceIte]
+      rcases hg with hst | hst
+      all_goals
+        pos_hyps hst p1 p2 p3 p4
+        st_goal hst
+        simp only [stepN, shStepD]
+        rw [Nat.add_assoc]
+        congr 1
+        exact sfp_step pre t _ _ (by na_simp hst) hfit (fun _ => p3.2)
+          (fun hh => p7 (by have hh' : pf.vstart < pf.vend := hh; omega))
+          (by show pf.vstart ≤ t.size; omega) (by show pf.vend ≤ t.size; omega)
+    · simp only [c4, Bool.false_eq_true, ↓reduceIte]
+      by_cases c1 : (c == 44) = true
+      · simp only [c1, ↓reduceIte]
+        have hp0 : pf.params.offs ≠ 0 := (p3 (by rcases hg with g | g <;> rw [g] <;> rfl)).1
+        have hpe1 : 1 ≤ pf.pend := by omega
+        have e2 : (shL pre.size pf).pend = pre.size + pf.pend := shZ_pos _ _ hpe1
+        rw [e2]
+        exact naCommaAfterWS_shift h pre t i pf.pend pf
+          (naEOH_shift h pre t pf i pf.pend i 1 .moreValues (by decide) hfit hcore hpe (fun _ => hpe1) hE.1 hE.2
+            (fun hh => by rcases hg with g | g <;> rw [g] at hh <;> cases hh) hlo hV (by omega))
+      · simp only [c1, Bool.false_eq_true, ↓reduceIte, stepN, shStepD]
+        rw [shDn_ne _ _ _ (by decide)]
+
+/-! ### `case fbParamValEnd, fbPossibleValEnd` -/
+
+theorem naStepVE_shift (h : Nat) (pre t : Buf) (i : Nat) (c : UInt8) (pf : PFromBody)
+    (hg : pf.state = .paramValEnd ∨ pf.state = .possibleValEnd)
+    (hb : t[i]? = some c) (hfit : pre.size + t.size ≤ 65535) (hS : NaSafe t i pf) (hP : NaPos i pf) :
+    stepN clrS (naStepVE h (pre ++ t) (pre.size + i) c (shL pre.size pf)) =
+      stepN clrS (shStepD pre.size (shL pre.size) (shDn pre.size) (naStepVE h t i c pf)) := by
+  have hlt := get?_lt hb
+  have hi1 : 1 ≤ i := hP.pos (by rcases hg with g | g <;> rw [g] <;> decide)
+  have hve := hS.vend
+  have hvs := hP.vsLe
+  have hE := hS.endV hg
+  have hlo := hP.lo
+  have hV := hP.hV
+  have hcore := hS.toNaCore
+  obtain ⟨p1, p2, p3, p4, p5, p6, p7⟩ := hP
+  unfold naStepVE
+  simp only [shL_state]
+  by_cases c4 : (c == 59) = true
+  · simp only [c4, ↓reduceIte]
+    rcases hg with hst | hst
+    all_goals
+      pos_hyps hst p1 p2 p3 p4
+      st_goal hst
+      simp only [stepN, shStepD]
+      rw [Nat.add_assoc]
+      congr 1
+      exact sfp_step pre t _ _ (by na_simp hst) hfit (fun _ => p3.2) (fun _ => p4)
+        (by show pf.vstart ≤ t.size; omega) (by show pf.vend ≤ t.size; omega)
+  · simp only [c4, Bool.false_eq_true, ↓reduceIte]
+    by_cases c1 : (c == 44) = true
+    · simp only [c1, ↓reduceIte]
+      have hp0 : pf.params.offs ≠ 0 := (p3 (by rcases hg with g | g <;> rw [g] <;> rfl)).1
+      have hve1 : 1 ≤ pf.vend := by omega
+      have e2 : (shL pre.size pf).vend = pre.size + pf.vend := shZ_pos _ _ hve1
+      rw [e2]
+      exact naCommaAfterWS_shift h pre t i pf.vend pf
+        (naEOH_shift h pre t pf i pf.vend i 1 .moreValues (by decide) hfit hcore hve (fun _ => hve1) hE.1 hE.2
+          (fun hh => by rcases hg with g | g <;> rw [g] at hh <;> cases hh) hlo hV (by omega))
+    · simp only [c1, Bool.false_eq_true, ↓reduceIte, stepN, shStepD]
+      rw [shDn_ne _ _ _ (by decide)]
+
+/-! ### `case fbNewParamVal, fbNewPossibleVal, fbParamVal, fbPossibleVal` -/
+
+theorem naStepV_shift (h : Nat) (pre t : Buf) (i : Nat) (c : UInt8) (pf : PFromBody)
+    (hg : pf.state = .newParamVal ∨ pf.state = .newPossibleVal ∨ pf.state = .paramVal ∨ pf.state = .possibleVal)
+    (hb : t[i]? = some c) (hfit : pre.size + t.size ≤ 65535) (hS : NaSafe t i pf) (hP : NaPos i pf) :
+    stepN clrS (naStepV h (pre ++ t) (pre.size + i) c (shL pre.size pf)) =
+      stepN clrS (shStepD pre.size (shL pre.size) (shDn pre.size) (naStepV h t i c pf)) := by
+  have hlt := get?_lt hb
+  have hi1 : 1 ≤ i := hP.pos (by rcases hg with g | g | g | g <;> rw [g] <;> decide)
+  have hve := hS.vend
+  have hvs := hP.vsLe
+  unfold naStepV
+  by_cases hl : isLWSch c = true
+  · simp only [hl, ↓reduceIte]
+    rw [skipLWS_shift]
+    rcases hq : skipLWS t i 0 with ⟨n, crl, e⟩
+    have hn : 1 ≤ n := by have := (skipLWS_range t i 0 hq).1; omega
+    have hX : NaSafe t i (naValWS pf i n false) := by
+      rw [naValWS_false]; exact naValWS_safe t i i pf false hS (Nat.le_refl _) hS.hi
+    have hXP := naValWS_pos pf i n i false hP (Nat.le_refl _) hn (fun hh => by cases hh) hg
+    cases e <;> simp only <;> try rw [naValWS_shift _ _ _ _ _ hi1 hn]
+    case eoh => exact done_of_res _ _ _ (naEOH_shift_here h pre t _ i n crl .ok (by decide) hfit hX hXP)
+    case moreBytes => simp only [stepN, shStepD]; rw [saveS_shift]
+    case ok => rfl
+    all_goals
+      simp only [stepN, shStepD]
+      rw [shDn_ne _ _ _ (by decide)]
+  · simp only [hl, Bool.false_eq_true, ↓reduceIte]
+    by_cases c1 : (c == 44) = true
+    · simp only [c1, ↓reduceIte]
+      split
+      · exact naMoreValues_shift h pre t i pf hfit hS hP
+      · simp only [stepN, shStepD]; rw [Nat.add_assoc]
+    · simp only [c1, Bool.false_eq_true, ↓reduceIte, shL_state]
+      obtain ⟨p1, p2, p3, p4, p5, p6, p7⟩ := hP
+      by_cases c4 : (c == 59) = true
+      · simp only [c4, ↓reduceIte]
+        rcases hg with hst | hst | hst | hst
+        all_goals
+          pos_hyps hst p1 p2 p3 p4
+          st_goal hst
+          simp only [stepN, shStepD]
+          rw [Nat.add_assoc]
+          congr 1
+          exact sfp_step pre t _ _ (by na_simp hst) hfit (fun _ => p3.2) (fun _ => p4)
+            (by show pf.vstart ≤ t.size; omega) (by show i ≤ t.size; omega)
+      · simp only [c4, Bool.false_eq_true, ↓reduceIte]
+        by_cases c3 : (c == 61 || c == 60 || c == 62) = true
+        · simp only [c3, ↓reduceIte, stepN, shStepD]
+          rw [shDn_ne _ _ _ (by decide)]
+        · simp only [c3, Bool.false_eq_true, ↓reduceIte]
+          by_cases c5 : (c == 34) = true
+          · simp only [c5, ↓reduceIte]
+            rcases hg with hst | hst | hst | hst
+            all_goals
+              st_goal hst
+              simp only [stepN, shStepD]
+              na_simp hst
+          · simp only [c5, Bool.false_eq_true, ↓reduceIte]
+            rcases hg with hst | hst | hst | hst
+            all_goals
+              st_goal hst
+              simp only [stepN, shStepD]
+              first
+                | (rw [Nat.add_assoc]; done)
+                | na_simp hst
+
+
+/-! ### the loop body -/
+
+theorem naStep_shift (h : Nat) (pre t : Buf) (i : Nat) (c : UInt8) (pf : PFromBody)
+    (hb : t[i]? = some c) (hfit : pre.size + t.size ≤ 65535) (hS : NaSafe t i pf) (hP : NaPos i pf) :
+    stepN clrS (naStep h (pre ++ t) (pre.size + i) c (shL pre.size pf)) =
+      stepN clrS (shStepD pre.size (shL pre.size) (shDn pre.size) (naStep h t i c pf)) := by
+  unfold naStep
+  rw [shL_state]
+  cases hst : pf.state <;> simp only
+  all_goals first
+    | exact naStepA_shift h pre t i c pf (by simp [hst]) hb hfit hS hP
+    | exact naStepQ_shift h pre t i c pf (by simp [hst]) hb hfit hS hP
+    | exact naStepU_shift pre t i c pf hst hb hfit hS
+    | exact naStepUF_shift h pre t i c pf hst hb hfit hS hP
+    | exact naStepP_shift h pre t i c pf (by simp [hst]) hb hfit hS hP
+    | exact naStepPE_shift h pre t i c pf (by simp [hst]) hb hfit hS hP
+    | exact naStepV_shift h pre t i c pf (by simp [hst]) hb hfit hS hP
+    | exact naStepVE_shift h pre t i c pf (by simp [hst]) hb hfit hS hP
+    | exact naStepStar_shift h pre t i c pf hfit hS hP
+    | (simp only [stepN, shStepD]; rw [Nat.add_assoc])
+
+/-- **the loop of ParseNameAddrPVal is position independent** (objects compared up to the local `s`) -/
+theorem naLoop_shift (h : Nat) (pre t : Buf) (o : Nat) (pf : PFromBody) (hfit : pre.size + t.size ≤ 65535)
+    (hS : NaSafe t o pf) (hP : NaPos o pf) :
+    resN clrS (runLoop (naMachine h) (pre ++ t) (pre.size + o) (shL pre.size pf)) =
+      resN clrS (shResD pre.size (shDn pre.size) (runLoop (naMachine h) t o pf)) :=
+  runLoop_shiftN (naMachine h) pre t (shL pre.size) (shDn pre.size) clrS (fun i st => NaSafe t i st ∧ NaPos i st)
+    (fun i c st i' st' hb hI hs hlt =>
+      ⟨na_safeCont h t i c st i' st' hb hI.1 hs hlt, na_posCont h t i c st hb (by omega) hI.2 hs⟩)
+    (fun i c st i' st' hb _ hs => na_progress h t i c st i' st' hb hs)
+    (fun i c st hb hI => naStep_shift h pre t i c st hb hfit hI.1 hI.2)
+    (fun i st _ _ => by
+      show resN clrS (pre.size + i, Err.moreBytes, (shL pre.size st).saveS) = _
+      rw [saveS_shift]; rfl)
+    o pf ⟨hS, hP⟩
+
+/-! ### ParseNameAddrPVal -/
+
+/-- the verdicts after which the call has written the restart offset (`moreBytes:` saves it, the successful end
+    clears it); after every other verdict the field still holds what the caller passed in -/
+def naWrote (e : Err) : Bool := e == .moreBytes || e == .ok || e == .moreValues
+
+/-- the moved result: offset moved by `k`, same verdict, object moved. After an error verdict the restart offset
+    of the returned object is the stale one of the object passed in (`pf0`): it is moved as in that object, not
+    according to the state in which the error occurred. -/
+def shResNa (k : Nat) (pf0 : PFromBody) (r : Nat × Err × PFromBody) : Nat × Err × PFromBody :=
+  (k + r.1, r.2.1, if naWrote r.2.1 then shNa k r.2.2 else { shNa k r.2.2 with soffs := shS k pf0.state pf0.soffs })
+
+/-- the object with which the loop is entered: the saved restart offset is loaded into the local `s` -/
+def naLoad (pf : PFromBody) : PFromBody := { pf with s := pf.soffs, soffs := 0 }
+
+/-- what the theorem needs of the object passed in: it is finished, or — once the saved restart offset is loaded
+    into the local `s` — it satisfies the loop invariants (`NaSafe`: saved positions and fields lie before the
+    current offset, no panic so far; `NaPos`: set positions are not zero) -/
+def NaShiftEntry (t : Buf) (o : Nat) (pf : PFromBody) : Prop :=
+  pf.state = .fin ∨ (NaSafe t o (naLoad pf) ∧ NaPos o (naLoad pf))
+
+theorem NaShiftEntry_new (t : Buf) (o : Nat) (ho : o ≤ t.size) : NaShiftEntry t o {} := by
+  right
+  refine ⟨?_, ?_⟩
+  · rcases NaEntry_new t o ho with hh | hh
+    · exact absurd hh.1 (by decide)
+    · exact hh.2
+  · refine ⟨fun hh => absurd rfl hh, ?_, ?_, ?_, Nat.zero_le _, fun hh => absurd rfl hh, fun hh => absurd rfl hh⟩
+    · intro hh; rcases hh with hh | hh | hh | hh <;> cases hh
+    · intro hh; cases hh
+    · intro hh; cases hh
+
+theorem naExit_clrS (s : Nat) (e : Err) (p : PFromBody) : naExit s e p = naExit s e (clrS p) := by
+  unfold naExit clrS; split <;> rfl
+
+theorem naExit_state (s : Nat) (e : Err) (p : PFromBody) : (naExit s e p).state = p.state := by
+  unfold naExit; split <;> rfl
+
+def naWrap (s : Nat) (r : Nat × Err × PFromBody) : Nat × Err × PFromBody := (r.1, r.2.1, naExit s r.2.1 r.2.2)
+
+theorem parseNameAddrPVal_notfin (h : Nat) (b : Buf) (o : Nat) (pf : PFromBody) (hf : pf.state ≠ .fin) :
+    parseNameAddrPVal h b o pf = naWrap pf.soffs (runLoop (naMachine h) b o (naLoad pf)) := by
+  unfold parseNameAddrPVal; rw [if_neg hf]; rfl
+
+theorem naLoad_shNa (k : Nat) (pf : PFromBody) : naLoad (shNa k pf) = shL k (naLoad pf) := rfl
+
+/-- leaving the loop: the moved loop result becomes the moved call result -/
+theorem naExit_shift (k : Nat) (pf0 : PFromBody) (e : Err) (p : PFromBody) (hfin : Err.complete e → p.state = .fin) :
+    naExit (shNa k pf0).soffs e (shDn k e p) =
+      if naWrote e then shNa k (naExit pf0.soffs e p) else { shNa k (naExit pf0.soffs e p) with soffs := shS k pf0.state pf0.soffs } := by
+  by_cases h1 : e = .moreBytes
+  · subst h1
+    simp only [naExit, naWrote, shDn, shNa, shL, shB, beq_self_eq_true, Bool.true_or, ↓reduceIte]
+  · rw [shDn_ne _ _ _ h1]
+    by_cases h2 : Err.complete e
+    · have hs := hfin h2
+      have hw : naWrote e = true := by rcases h2 with h2 | h2 <;> subst h2 <;> rfl
+      have hx : (e == Err.moreBytes || e == Err.ok || e == Err.moreValues) = true := hw
+      simp only [naExit, hw, hx, ↓reduceIte, shNa, shL, shB, shS, hs, sPos, Bool.false_eq_true]
+    · have hw : naWrote e = false := by
+        cases e <;> first | rfl | exact absurd rfl h1 | exact absurd (Or.inl rfl) h2 | exact absurd (Or.inr rfl) h2
+      have hx : (e == Err.moreBytes || e == Err.ok || e == Err.moreValues) = false := hw
+      simp only [naExit, hw, hx, ↓reduceIte, shNa, shL, shB, Bool.false_eq_true]
+
+/-- **ParseNameAddrPVal is position independent** -/
+theorem parseNameAddrPVal_shift (h : Nat) (pre t : Buf) (o : Nat) (pf : PFromBody)
+    (hfit : pre.size + t.size ≤ 65535) (hE : NaShiftEntry t o pf) :
+    parseNameAddrPVal h (pre ++ t) (pre.size + o) (shNa pre.size pf) =
+      shResNa pre.size pf (parseNameAddrPVal h t o pf) := by
+  by_cases hf : pf.state = .fin
+  · unfold parseNameAddrPVal
+    rw [shNa_state, if_pos hf, if_pos hf]
+    rfl
+  · rcases hE with hE | hE
+    · exact absurd hE hf
+    · have hpost := fun o' e pf' => parseNameAddrPVal_post h t o pf (o' := o') (e := e) (pf' := pf')
+      rw [parseNameAddrPVal_notfin h t o pf hf] at hpost ⊢
+      rw [parseNameAddrPVal_notfin h _ _ _ (by rw [shNa_state]; exact hf), naLoad_shNa]
+      have key := naLoop_shift h pre t o (naLoad pf) hfit hE.1 hE.2
+      rcases hr : runLoop (naMachine h) t o (naLoad pf) with ⟨o1, e1, p1⟩
+      rcases hr' : runLoop (naMachine h) (pre ++ t) (pre.size + o) (shL pre.size (naLoad pf)) with ⟨o2, e2, p2⟩
+      rw [hr, hr'] at key
+      rw [hr] at hpost
+      simp only [resN, shResD, Prod.mk.injEq] at key
+      obtain ⟨rfl, rfl, k3⟩ := key
+      have hfin : Err.complete e2 → p1.state = .fin := by
+        intro hc
+        have := (hpost o1 e2 (naExit pf.soffs e2 p1) rfl hc).1
+        rw [naExit_state] at this
+        exact this
+      simp only [shResNa, naWrap]
+      rw [naExit_clrS, k3, ← naExit_clrS, naExit_shift _ _ _ _ hfin]
+      rfl
+
+
+/-- … in the usual form when the call ended with OK / MoreValues / MoreBytes -/
+theorem parseNameAddrPVal_shift_wrote (h : Nat) (pre t : Buf) (o : Nat) (pf : PFromBody)
+    (hfit : pre.size + t.size ≤ 65535) (hE : NaShiftEntry t o pf)
+    (hw : naWrote (parseNameAddrPVal h t o pf).2.1 = true) :
+    parseNameAddrPVal h (pre ++ t) (pre.size + o) (shNa pre.size pf) =
+      shRes pre.size (shNa pre.size) (parseNameAddrPVal h t o pf) := by
+  rw [parseNameAddrPVal_shift h pre t o pf hfit hE]
+  unfold shResNa shRes
+  rw [if_pos hw]
+
+/-- … for every verdict: offset moved, same verdict, and the object moved up to the saved restart offset -/
+theorem parseNameAddrPVal_shift_fields (h : Nat) (pre t : Buf) (o : Nat) (pf : PFromBody)
+    (hfit : pre.size + t.size ≤ 65535) (hE : NaShiftEntry t o pf) :
+    (parseNameAddrPVal h (pre ++ t) (pre.size + o) (shNa pre.size pf)).1 = pre.size + (parseNameAddrPVal h t o pf).1 ∧
+    (parseNameAddrPVal h (pre ++ t) (pre.size + o) (shNa pre.size pf)).2.1 = (parseNameAddrPVal h t o pf).2.1 ∧
+    ({ (parseNameAddrPVal h (pre ++ t) (pre.size + o) (shNa pre.size pf)).2.2 with soffs := 0 } : PFromBody) =
+      { shNa pre.size (parseNameAddrPVal h t o pf).2.2 with soffs := 0 } := by
+  rw [parseNameAddrPVal_shift h pre t o pf hfit hE]
+  refine ⟨rfl, rfl, ?_⟩
+  unfold shResNa
+  simp only
+  split <;> rfl
+
+/-- **… from a new object** at any start offset: after an error verdict the (never written) restart offset is 0 in
+    both runs -/
+theorem parseNameAddrPVal_shift_new (h : Nat) (pre t : Buf) (o : Nat) (ho : o ≤ t.size)
+    (hfit : pre.size + t.size ≤ 65535) :
+    parseNameAddrPVal h (pre ++ t) (pre.size + o) {} = shResNa pre.size {} (parseNameAddrPVal h t o {}) :=
+  parseNameAddrPVal_shift h pre t o {} hfit (NaShiftEntry_new t o ho)
+
+theorem shResNa_new (k : Nat) (r : Nat × Err × PFromBody) :
+    shResNa k {} r = (k + r.1, r.2.1, if naWrote r.2.1 then shNa k r.2.2 else { shNa k r.2.2 with soffs := 0 }) := rfl
+
+/-- what the translation does to a finished object: display name, tag and parameter list moved unless not set
+    (zero value), URI and value moved, everything else unchanged -/
+theorem shNa_fin (k : Nat) (pf : PFromBody) (hf : pf.state = .fin) :
+    shNa k pf = { pf with name := shO k pf.name, uri := shF k pf.uri, tag := shO k pf.tag, params := shP k pf.params,
+                          v := shF k pf.v, errOffs := shZ k pf.errOffs, pstart := shZ k pf.pstart,
+                          pend := shZ k pf.pend, vstart := shZ k pf.vstart, vend := shZ k pf.vend } := by
+  simp only [shNa, shB, shS, hf, uriSet, vSet, sPos, ↓reduceIte, Bool.false_eq_true]
+
+/-- **what a caller sees** when a value parsed from a new object is complete (OK / MoreValues): the same verdict, the
+    returned offset moved by `k`, URI and value moved by `k`, display name / tag / parameter list moved by `k` unless
+    absent (zero value), and every number, flag, the type, the parameter error and the panic flag unchanged -/
+theorem parseNameAddrPVal_shift_reported (h : Nat) (pre t : Buf) (o : Nat) (ho : o ≤ t.size)
+    (hfit : pre.size + t.size ≤ 65535) {o' : Nat} {e : Err} {pf' : PFromBody}
+    (hr : parseNameAddrPVal h t o {} = (o', e, pf')) (hc : Err.complete e) :
+    ∃ pf'', parseNameAddrPVal h (pre ++ t) (pre.size + o) {} = (pre.size + o', e, pf'') ∧
+      pf''.uri = shF pre.size pf'.uri ∧ pf''.v = shF pre.size pf'.v ∧ pf''.name = shO pre.size pf'.name ∧
+      pf''.tag = shO pre.size pf'.tag ∧ pf''.params = shP pre.size pf'.params ∧
+      pf''.q = pf'.q ∧ pf''.expires = pf'.expires ∧ pf''.hasExpires = pf'.hasExpires ∧ pf''.lr = pf'.lr ∧
+      pf''.star = pf'.star ∧ pf''.type = pf'.type ∧ pf''.paramErr = pf'.paramErr ∧ pf''.state = .fin ∧
+      pf''.pnc = pf'.pnc := by
+  have hfin := (parseNameAddrPVal_post h t o {} hr hc).1
+  have hw : naWrote e = true := by rcases hc with hc | hc <;> subst hc <;> rfl
+  have hs := parseNameAddrPVal_shift h pre t o {} hfit (NaShiftEntry_new t o ho)
+  rw [shNa_new, hr] at hs
+  refine ⟨shNa pre.size pf', ?_, ?_⟩
+  · rw [hs]; unfold shResNa; simp only [hw, ↓reduceIte]
+  · rw [shNa_fin _ _ hfin]
+    exact ⟨rfl, rfl, rfl, rfl, rfl, rfl, rfl, rfl, rfl, rfl, rfl, rfl, hfin, rfl⟩
+
+theorem get?_zero_field (b : Buf) (f : PField) (h0 : f.offs = 0) (hl : f.len = 0) : f.get? b = some #[] := by
+  unfold PField.get? PField.endT trunc16
+  rw [h0, hl]
+  simp
+
+theorem get?_shO (pre t : Buf) (f : PField) (hin : f.inside t.size) (hfit : pre.size + t.size ≤ 65535) :
+    (shO pre.size f).get? (pre ++ t) = f.get? t := by
+  unfold shO
+  split
+  · rename_i hz
+    rw [get?_zero_field _ f hz.1 hz.2, get?_zero_field _ f hz.1 hz.2]
+  · exact get?_shiftF pre t f hin hfit
+
+theorem get?_shP (pre t : Buf) (f : PField) (hin : f.inside t.size) (hfit : pre.size + t.size ≤ 65535)
+    (hp : f.offs = 0 → f.len = 0) :
+    (shP pre.size f).get? (pre ++ t) = f.get? t := by
+  unfold shP
+  split
+  · rename_i hz
+    rw [get?_zero_field _ f hz (hp hz), get?_zero_field _ f hz (hp hz)]
+  · exact get?_shiftF pre t f hin hfit
+
+/-- … and the reported fields of the moved object denote the same bytes (URI, value, display name, tag) -/
+theorem parseNameAddrPVal_shift_bytes (h : Nat) (pre t : Buf) (o : Nat) (ho : o ≤ t.size)
+    (hfit : pre.size + t.size ≤ 65535) {o' : Nat} {e : Err} {pf' : PFromBody}
+    (hr : parseNameAddrPVal h t o {} = (o', e, pf')) (hc : Err.complete e) :
+    ∃ pf'', parseNameAddrPVal h (pre ++ t) (pre.size + o) {} = (pre.size + o', e, pf'') ∧
+      pf''.uri.get? (pre ++ t) = pf'.uri.get? t ∧ pf''.v.get? (pre ++ t) = pf'.v.get? t ∧
+      pf''.name.get? (pre ++ t) = pf'.name.get? t ∧ pf''.tag.get? (pre ++ t) = pf'.tag.get? t := by
+  obtain ⟨pf'', h1, h2, h3, h4, h5, _⟩ := parseNameAddrPVal_shift_reported h pre t o ho hfit hr hc
+  have hout := (parseNameAddrPVal_safe h t o {} (NaEntry_new t o ho) hr).1
+  have hle := hout.ho
+  refine ⟨pf'', h1, ?_, ?_, ?_, ?_⟩
+  · rw [h2]; exact get?_shiftF pre t _ (PField.inside_mono hout.uri hle) hfit
+  · rw [h3]; exact get?_shiftF pre t _ (PField.inside_mono hout.v hle) hfit
+  · rw [h4]; exact get?_shO pre t _ (PField.inside_mono hout.name hle) hfit
+  · rw [h5]; exact get?_shO pre t _ (PField.inside_mono hout.tag hle) hfit
+
+
+/-! ### after MoreBytes the returned object is again a legitimate argument -/
+
+theorem NaPos.saveS {i : Nat} {pf : PFromBody} (h : NaPos i pf) : NaPos i pf.saveS :=
+  ⟨h.pos, h.sLt, h.started, h.vstarted, h.vsLe, h.g1, h.g2⟩
+
+theorem naLWS_more (h : Nat) (b : Buf) (i : Nat) (pf : PFromBody) (hP : NaPos i pf) {o : Nat} {st' : PFromBody}
+    (hs : naLWS h b i pf = .done o .moreBytes st') : NaPos o st' := by
+  unfold naLWS lwsStd at hs
+  rcases hsk : skipLWS b i 0 with ⟨n, crl, e⟩
+  rw [hsk] at hs
+  have hr := (skipLWS_range b i 0 hsk).1
+  cases e <;> simp only at hs
+  case eoh =>
+    simp only [Step.done.injEq] at hs
+    exact absurd hs.2.1 (naEOH_ne_more h b pf i n crl .ok (by decide))
+  case moreBytes => cases hs; exact (hP.mono hr).saveS
+  all_goals cases hs
+
+theorem naMoreValues_not_more (h : Nat) (b : Buf) (pf : PFromBody) (i : Nat) {o : Nat} {st' : PFromBody} :
+    naMoreValues h b pf i ≠ .done o .moreBytes st' := by
+  unfold naMoreValues
+  intro hs
+  simp only [Step.done.injEq] at hs
+  exact absurd hs.2.1 (naEOH_ne_more h b pf i i 1 .moreValues (by decide))
+
+theorem naCommaAfterWS_not_more (h : Nat) (b : Buf) (pf : PFromBody) (i e : Nat) {o : Nat} {st' : PFromBody} :
+    naCommaAfterWS h b pf i e ≠ .done o .moreBytes st' := by
+  unfold naCommaAfterWS
+  intro hs
+  split at hs
+  · simp only [Step.done.injEq] at hs
+    exact absurd hs.2.1 (naEOH_ne_more h b pf e i 1 .moreValues (by decide))
+  · cases hs
+
+theorem naStepA_more (h : Nat) (b : Buf) (i : Nat) (c : UInt8) (pf : PFromBody)
+    (hg : pf.state = .init ∨ pf.state = .name ∨ pf.state = .nameOrURI ∨ pf.state = .nameOrURIEnd)
+    (hP : NaPos i pf) {o : Nat} {st' : PFromBody} (hs : naStepA h b i c pf = .done o .moreBytes st') : NaPos o st' := by
+  have hP' := hP
+  obtain ⟨p1, p2, p3, p4, p5, p6, p7⟩ := hP
+  unfold naStepA at hs
+  rcases hg with hst | hst | hst | hst
+  all_goals
+    pos_hyps hst p1 p2 p3 p4
+    st_hs hst hs
+    repeat' (split at hs)
+    all_goals first
+      | exact naLWS_more h b i _ hP' hs
+      | (refine naLWS_more h b i _ ?_ hs; pos_tac)
+      | exact absurd hs (naMoreValues_not_more h b _ i)
+      | cases hs
+
+theorem naStepQ_more (h : Nat) (b : Buf) (i : Nat) (c : UInt8) (pf : PFromBody)
+    (hP : NaPos i pf) {o : Nat} {st' : PFromBody} (hs : naStepQ h b i c pf = .done o .moreBytes st') : NaPos o st' := by
+  unfold naStepQ at hs
+  repeat' (split at hs)
+  all_goals first
+    | exact naLWS_more h b i _ hP hs
+    | (cases hs; exact hP.saveS)
+    | cases hs
+
+theorem naStepU_more (i : Nat) (c : UInt8) (pf : PFromBody) {o : Nat} {st' : PFromBody}
+    (hs : naStepU i c pf = .done o .moreBytes st') : NaPos o st' := by
+  unfold naStepU at hs
+  repeat' (split at hs)
+  all_goals cases hs
+
+theorem naStepUF_more (h : Nat) (b : Buf) (i : Nat) (c : UInt8) (pf : PFromBody)
+    (hP : NaPos i pf) {o : Nat} {st' : PFromBody} (hs : naStepUF h b i c pf = .done o .moreBytes st') : NaPos o st' := by
+  unfold naStepUF at hs
+  repeat' (split at hs)
+  all_goals first
+    | exact naLWS_more h b i _ hP hs
+    | exact absurd hs (naMoreValues_not_more h b _ i)
+    | cases hs
+
+theorem naStepStar_more (h : Nat) (b : Buf) (i : Nat) (c : UInt8) (pf : PFromBody)
+    (hP : NaPos i pf) {o : Nat} {st' : PFromBody} (hs : naStepStar h b i c pf = .done o .moreBytes st') : NaPos o st' := by
+  unfold naStepStar at hs
+  split at hs
+  · exact naLWS_more h b i _ hP hs
+  · cases hs
+
+theorem naStepPE_more (h : Nat) (b : Buf) (i : Nat) (c : UInt8) (pf : PFromBody) {o : Nat} {st' : PFromBody}
+    (hs : naStepPE h b i c pf = .done o .moreBytes st') : NaPos o st' := by
+  unfold naStepPE at hs
+  repeat' (split at hs)
+  all_goals first
+    | exact absurd hs (naCommaAfterWS_not_more h b _ i _)
+    | cases hs
+
+theorem naStepVE_more (h : Nat) (b : Buf) (i : Nat) (c : UInt8) (pf : PFromBody) {o : Nat} {st' : PFromBody}
+    (hs : naStepVE h b i c pf = .done o .moreBytes st') : NaPos o st' := by
+  unfold naStepVE at hs
+  repeat' (split at hs)
+  all_goals first
+    | exact absurd hs (naCommaAfterWS_not_more h b _ i _)
+    | cases hs
+
+theorem naStepP_more (h : Nat) (b : Buf) (i : Nat) (c : UInt8) (pf : PFromBody)
+    (hP : NaPos i pf) {o : Nat} {st' : PFromBody} (hs : naStepP h b i c pf = .done o .moreBytes st') : NaPos o st' := by
+  unfold naStepP at hs
+  split at hs
+  · rcases hsk : skipLWS b i 0 with ⟨n, crl, e⟩
+    rw [hsk] at hs
+    cases e <;> simp only at hs
+    case eoh =>
+      simp only [Step.done.injEq] at hs
+      exact absurd hs.2.1 (naEOH_ne_more h b _ i n crl .ok (by decide))
+    case moreBytes => cases hs; exact hP.saveS
+    all_goals cases hs
+  · repeat' (split at hs)
+    all_goals first
+      | exact absurd hs (naMoreValues_not_more h b _ i)
+      | cases hs
+
+theorem naStepV_more (h : Nat) (b : Buf) (i : Nat) (c : UInt8) (pf : PFromBody)
+    (hP : NaPos i pf) {o : Nat} {st' : PFromBody} (hs : naStepV h b i c pf = .done o .moreBytes st') : NaPos o st' := by
+  unfold naStepV at hs
+  split at hs
+  · rcases hsk : skipLWS b i 0 with ⟨n, crl, e⟩
+    rw [hsk] at hs
+    cases e <;> simp only at hs
+    case eoh =>
+      simp only [Step.done.injEq] at hs
+      exact absurd hs.2.1 (naEOH_ne_more h b _ i n crl .ok (by decide))
+    case moreBytes => cases hs; exact hP.saveS
+    all_goals cases hs
+  · repeat' (split at hs)
+    all_goals first
+      | exact absurd hs (naMoreValues_not_more h b _ i)
+      | cases hs
+
+/-- a step that asks for more bytes leaves an object satisfying the invariant on set positions -/
+theorem naStep_more (h : Nat) (b : Buf) (i : Nat) (c : UInt8) (pf : PFromBody) (hP : NaPos i pf)
+    {o : Nat} {st' : PFromBody} (hs : naStep h b i c pf = .done o .moreBytes st') : NaPos o st' := by
+  unfold naStep at hs
+  split at hs
+  all_goals first
+    | exact naStepA_more h b i c pf (by simp [*]) hP hs
+    | exact naStepQ_more h b i c pf hP hs
+    | exact naStepU_more i c pf hs
+    | exact naStepUF_more h b i c pf hP hs
+    | exact naStepP_more h b i c pf hP hs
+    | exact naStepPE_more h b i c pf hs
+    | exact naStepV_more h b i c pf hP hs
+    | exact naStepVE_more h b i c pf hs
+    | exact naStepStar_more h b i c pf hP hs
+    | cases hs
+
+/-- **after MoreBytes the returned object satisfies the hypothesis of `parseNameAddrPVal_shift` again** (at the
+    returned offset, in any longer buffer position-independence can be applied to the resumed call) -/
+theorem parseNameAddrPVal_shiftEntry (h : Nat) (t : Buf) (o : Nat) (pf : PFromBody) (hfit : t.size ≤ 65535)
+    (hE : NaShiftEntry t o pf) {o' : Nat} {pf' : PFromBody}
+    (hr : parseNameAddrPVal h t o pf = (o', Err.moreBytes, pf')) : NaShiftEntry t o' pf' := by
+  by_cases hf : pf.state = .fin
+  · unfold parseNameAddrPVal at hr
+    rw [if_pos hf] at hr
+    cases hr
+  · rcases hE with hE | hE
+    · exact absurd hE hf
+    · have hsafe := (parseNameAddrPVal_safe h t o pf (Or.inr ⟨hf, hE.1⟩) hr).2 rfl
+      rcases hsafe with hsafe | hsafe
+      · exact Or.inl hsafe.1
+      · right
+        refine ⟨hsafe.2, ?_⟩
+        rw [parseNameAddrPVal_notfin h t o pf hf] at hr
+        have key := runLoop_inv (naMachine h) t (fun i st => NaSafe t i st ∧ NaPos i st)
+          (fun r => r.2.1 = .moreBytes → NaPos r.1 r.2.2 ∧ r.2.2.soffs = r.2.2.s)
+          (by
+            intro i c st i' st' hb hI hs
+            refine ⟨fun hlt => ⟨na_safeCont h t i c st i' st' hb hI.1 hs hlt, na_posCont h t i c st hb hfit hI.2 hs⟩,
+              fun _ hh => by cases hh⟩)
+          (by
+            intro i c st o1 e1 st1 hb hI hs hm
+            simp only at hm
+            subst hm
+            exact ⟨naStep_more h t i c st hI.2 hs, ((naStep_done h t i c st hb hI.1 hs).2 rfl).2⟩)
+          (by
+            intro i st _ hI _
+            exact ⟨hI.2.saveS, rfl⟩)
+          o (naLoad pf) hE
+        rcases hl : runLoop (naMachine h) t o (naLoad pf) with ⟨o1, e1, p1⟩
+        rw [hl] at key hr
+        simp only [naWrap, Prod.mk.injEq] at hr
+        obtain ⟨rfl, rfl, rfl⟩ := hr
+        obtain ⟨k1, k2⟩ := key rfl
+        simp only at k1 k2
+        have e0 : naLoad (naExit pf.soffs Err.moreBytes p1) = { p1 with soffs := 0 } := by
+          show ({ p1 with s := p1.soffs, soffs := 0 } : PFromBody) = { p1 with soffs := 0 }
+          rw [k2]
+        rw [e0]
+        exact ⟨k1.pos, k1.sLt, k1.started, k1.vstarted, k1.vsLe, k1.g1, k1.g2⟩
+
+
+theorem NaSafe.append {b : Buf} {i : Nat} {pf : PFromBody} (h : NaSafe b i pf) (s : Buf) : NaSafe (b ++ s) i pf :=
+  ⟨⟨by have := h.hi; rw [Array.size_append]; omega, h.pend, h.vend, h.s, h.name, h.uri, h.tag, h.params, h.v, h.pnc⟩,
+    h.endP, h.endV⟩
+
+theorem NaShiftEntry.append {t : Buf} {o : Nat} {pf : PFromBody} (h : NaShiftEntry t o pf) (s : Buf) :
+    NaShiftEntry (t ++ s) o pf := by
+  rcases h with h | h
+  · exact Or.inl h
+  · exact Or.inr ⟨h.1.append s, h.2⟩
+
+/-- **the resumed call is position independent too**: a value that ran out of bytes in `t` (parsed from a new object)
+    and is resumed, at the returned offset and with the returned object, once more bytes `s` have arrived -/
+theorem parseNameAddrPVal_shift_resume (h : Nat) (pre t s : Buf) (o : Nat) (ho : o ≤ t.size)
+    (hfit : pre.size + (t ++ s).size ≤ 65535) {o1 : Nat} {pf1 : PFromBody}
+    (hr : parseNameAddrPVal h t o {} = (o1, Err.moreBytes, pf1)) :
+    parseNameAddrPVal h (pre ++ (t ++ s)) (pre.size + o1) (shNa pre.size pf1) =
+      shResNa pre.size pf1 (parseNameAddrPVal h (t ++ s) o1 pf1) :=
+  parseNameAddrPVal_shift h pre (t ++ s) o1 pf1 hfit
+    ((parseNameAddrPVal_shiftEntry h t o {} (by rw [Array.size_append] at hfit; omega) (NaShiftEntry_new t o ho) hr).append s)
+
+/-! ### non-vacuity (tests) -/
+
+-- a complete From value with display name, tag and a trailing parameter, after 3 junk bytes
+example : parseNameAddrPVal HdrFrom ("xyz".toUTF8.data ++ "\"A\" <sip:a@b>;tag=x1;q=0.5\r\nX".toUTF8.data) 3 {} =
+    shRes 3 (shNa 3) (parseNameAddrPVal HdrFrom "\"A\" <sip:a@b>;tag=x1;q=0.5\r\nX".toUTF8.data 0 {}) := by decide +kernel
+example : (parseNameAddrPVal HdrFrom "\"A\" <sip:a@b>;tag=x1;q=0.5\r\nX".toUTF8.data 0 {}).2.1 = Err.ok := by decide +kernel
+-- the text starts at offset 0 with a bare URI and runs out inside a parameter: restart offset 0 becomes 3
+example : parseNameAddrPVal HdrContact ("xyz".toUTF8.data ++ "a ;x=1".toUTF8.data) 3 {} =
+    shRes 3 (shNa 3) (parseNameAddrPVal HdrContact "a ;x=1".toUTF8.data 0 {}) := by decide +kernel
+example : (parseNameAddrPVal HdrContact "a ;x=1".toUTF8.data 0 {}).2.1 = Err.moreBytes ∧
+    (parseNameAddrPVal HdrContact "a ;x=1".toUTF8.data 0 {}).2.2.soffs = 0 ∧
+    (parseNameAddrPVal HdrContact ("xyz".toUTF8.data ++ "a ;x=1".toUTF8.data) 3 {}).2.2.soffs = 3 := by decide +kernel
+-- an error verdict: the stale restart offset is not moved (`shResNa`), although the state reached moves `s`
+example : parseNameAddrPVal HdrFrom ("xyz".toUTF8.data ++ "a <b<".toUTF8.data) 3 {} =
+    shResNa 3 {} (parseNameAddrPVal HdrFrom "a <b<".toUTF8.data 0 {}) := by decide +kernel
+example : (parseNameAddrPVal HdrFrom "a <b<".toUTF8.data 0 {}).2.1 = Err.badChar := by decide +kernel
+example : parseNameAddrPVal HdrFrom ("xyz".toUTF8.data ++ "a <b<".toUTF8.data) 3 {} ≠
+    shRes 3 (shNa 3) (parseNameAddrPVal HdrFrom "a <b<".toUTF8.data 0 {}) := by decide +kernel
+
+
+-- "a ;x=1" runs out of bytes; resumed on "a ;x=1;tag=z\r\nX" after 3 junk bytes with the moved object
+example :
+    let r1 := parseNameAddrPVal HdrFrom "a ;x=1".toUTF8.data 0 {}
+    r1.2.1 = Err.moreBytes ∧
+    parseNameAddrPVal HdrFrom ("xyz".toUTF8.data ++ "a ;x=1;tag=z\r\nX".toUTF8.data) (3 + r1.1) (shNa 3 r1.2.2) =
+      shRes 3 (shNa 3) (parseNameAddrPVal HdrFrom "a ;x=1;tag=z\r\nX".toUTF8.data r1.1 r1.2.2) ∧
+    (parseNameAddrPVal HdrFrom "a ;x=1;tag=z\r\nX".toUTF8.data r1.1 r1.2.2).2.1 = Err.ok := by decide +kernel
 
 
 end Sipsp
